@@ -167,7 +167,7 @@ def rule_ws_in_sentences(ctx, rep, langs=ALL_LANGS):
     rule_numbers_in_sentences(ctx, rep, langs, which='ws')
 
 
-def rule_ordinals_in_sentences(ctx, rep, langs=('en', 'fr', 'de', 'nl', 'it')):
+def rule_ordinals_in_sentences(ctx, rep, langs=ALL_LANGS):
     R = 'S04-ORDINAL-IN-SENTENCE'
     rep.rule(R, 'replace_numbers_in_text(threshold 0) rewrites "w1 <n-th ordinal> w2" as "w1 n<marker> w2" (the marker the language attaches to that '
                 'form), for ranks 1..60 and samples up to 100 000')
@@ -200,7 +200,16 @@ def rule_ordinals_in_sentences(ctx, rep, langs=('en', 'fr', 'de', 'nl', 'it')):
                 bad.append((text, r, want))
             else:
                 okc += 1
-        _report(rep, R, lang, 'ordinals', bad, okc)
+        unk = [b_ for b_ in bad if b_[1][0] == '?']
+        if unk:
+            rep.anchor(R, lang, 'cannot interpret replace_numbers_in_text on %r: %s' % (unk[0][0], unk[0][1][1]))
+            continue
+        # one instance per failing ordinal (a specific identity for known findings)
+        for text, r, want in bad[:8]:
+            phrase = ' '.join(text.split(' ')[1:-1])
+            rep.violation(R, '%s|%s' % (lang, phrase), '%r is rewritten as %r, expected %r' % (text, r[1], want))
+        if not bad:
+            rep.ok(R, lang, '%d sentences' % okc)
     rep.floor(R, total, 350, 'sentences rewritten')
 
 
@@ -521,3 +530,219 @@ def rule_zeros_in_sentences(ctx, rep, langs=ALL_LANGS):
                 okc += 1
         _report(rep, R, lang, 'zeros', bad, okc)
     rep.floor(R, total, 170, 'sentences rewritten')
+
+
+# ---------------------------------------------------------------------------------------------------------
+def occurrences(lang, text, th):
+    """find_numbers over the tokenizer's tokens of `text`, in the real language: [(start, end, text, value, is_ordinal)] + token texts."""
+    from ..vm import Iter
+    ev = _ev(lang)
+    vm = ev.vm
+    try:
+        toks = vm.materialise(vm.deref(vm.run('tokenizer::tokenize', [text])))
+        occs = vm.run('word_to_digit::find_numbers', [Iter(list(toks)), ev.self_value, th])
+        out = [(o.fields['start'], o.fields['end'], o.fields['text'], o.fields['value'], o.fields['is_ordinal']) for o in occs.items]
+        return ('ok', out, [t.fields['text'] for t in toks])
+    except Panic as e:
+        return ('panic', str(e), None)
+    except (Unsupported, Unanalysable) as e:
+        return ('?', str(e), None)
+
+
+def _occ_work(job):
+    lang, items = job
+    return lang, [(key, occurrences(lang, text, th)) for key, text, th in items]
+
+
+def rule_occurrences_in_sentences(ctx, rep, langs=ALL_LANGS):
+    R = 'S06-OCCURRENCES'
+    rep.rule(R, 'find_numbers over the tokenizer\'s tokens of generated sentences (cardinals, ordinals, decimals, pairs, zeros) in each real language: '
+                'every span lies in the stream, spans increase and are disjoint, begin and end on a word token; the text is digits, optionally a '
+                'decimal mark and digits, optionally the ordinal marker (es 1/n); the value is the numeric reading of that text; the ordinal flag is '
+                'set exactly when the text carries a marker')
+    import re as _re
+    global _FACTS, _EV
+    jobs = {}
+    for lang in langs:
+        lx = lexicon(lang)
+        w1, w2 = WORDS[lang]
+        sp = lambda n: ' '.join(spellings(lang, n)[0])   # noqa: E731
+        texts = []
+        for n in (0, 1, 7, 10, 21, 80, 99, 100, 101, 1000, 1999, 21000, 123456, 2 * 10 ** 6, 999 * 10 ** 6 + 999999):
+            if spellings(lang, n):
+                texts.append('%s %s %s' % (w1, sp(n), w2))
+        for n in (1, 2, 3, 11, 21, 100):
+            o = ordinal_spellings(lang, n)
+            if o:
+                texts.append('%s %s %s, %s' % (w1, ' '.join(o[0]), w2, sp(5)))
+        texts.append('%s %s %s %s %s' % (sp(3), lx['decimal_sep'], sp(1) if lang not in DIGITS else DIGITS[lang][1], sp(4) if lang not in DIGITS else DIGITS[lang][4], w2))
+        texts.append('%s %s, %s. %s %s' % (sp(20), sp(12), sp(2), lx['zero'][0], sp(7)))
+        texts.append('%s-%s %s' % (sp(20).split(' ')[0], w1, sp(30)))
+        if lang == 'es':
+            texts += ['un doceavo de %s' % w1, 'tres centavos']
+        jobs[lang] = [((i, th), t, th) for i, t in enumerate(texts) for th in (0.0, 10.0)]
+
+    def mk():
+        global _FACTS, _EV
+        _FACTS = ctx.facts
+        _EV = {}
+        import multiprocessing
+        n = min(os.cpu_count() or 1, 16)
+        js = list(jobs.items())
+        if n < 2 or os.environ.get('T2N_NO_FORK'):
+            parts = [_occ_work(j) for j in js]
+        else:
+            with multiprocessing.get_context('fork').Pool(min(n, len(js))) as pool:
+                parts = pool.map(_occ_work, js, chunksize=1)
+        return {lang: dict(out) for lang, out in parts}
+    res = getattr(ctx, 'memo_disk', ctx.memo)(('sent-occurrences', ctx.tier), mk)
+    total = 0
+    for lang in langs:
+        lx = lexicon(lang)
+        mark = lx['decimal_mark']
+        markers = sorted({o['marker'] for o in lx['ordinals']}, key=len, reverse=True)
+        bad = []
+        okc = 0
+        unk = None
+        for key, text, th in jobs[lang]:
+            r = res[lang][key]
+            if r[0] == '?':
+                unk = (text, r[1])
+                break
+            if r[0] == 'panic':
+                bad.append((text, 'panics: ' + r[1]))
+                continue
+            occs, toks = r[1], r[2]
+            last_end = 0
+            for (s_, e_, tx, val, is_ord) in occs:
+                total += 1
+                why = None
+                if not (0 <= s_ < e_ <= len(toks)) or s_ < last_end:
+                    why = 'span %d..%d out of order / out of the %d tokens' % (s_, e_, len(toks))
+                elif not (toks[s_][:1].isalnum() and toks[e_ - 1][:1].isalnum()):
+                    why = 'span %d..%d does not begin and end on a word token (%r .. %r)' % (s_, e_, toks[s_], toks[e_ - 1])
+                else:
+                    body, mk_ = tx, None
+                    for m_ in markers:
+                        if m_ and tx.endswith(m_) and not tx[:-len(m_)][-1:].isalpha():
+                            body, mk_ = tx[:-len(m_)], m_
+                            break
+                    if lang == 'es' and _re.fullmatch(r'1/\d+', body):
+                        want_val = 1.0 / float(body[2:])
+                    elif _re.fullmatch(r'\d+(%s\d+)?' % _re.escape(mark), body):
+                        want_val = float(body.replace(mark, '.'))
+                    else:
+                        want_val = None
+                        why = 'text %r is not a numeral (digits, optional %r + digits, optional marker)' % (tx, mark)
+                    if why is None and val != want_val:
+                        why = 'text %r has the value %r, its numeric reading is %r' % (tx, val, want_val)
+                    if why is None and bool(is_ord) != (mk_ is not None):
+                        why = 'text %r is %sflagged ordinal' % (tx, '' if is_ord else 'not ')
+                last_end = e_
+                if why:
+                    bad.append((text + ' @%s' % th, why))
+                else:
+                    okc += 1
+        if unk:
+            rep.anchor(R, lang, 'cannot interpret find_numbers on %r: %s' % unk)
+            continue
+        rep.check(not bad, R, lang, '%d occurrences well-formed' % okc, 'in %r: %s (%d occurrences ill-formed)' % (bad[0] + (len(bad),) if bad else ('', '', 0)))
+    rep.floor(R, total, 280, 'occurrences inspected')
+
+
+def _span_work(job):
+    lang, items = job
+    from .phrases import validate
+    import t2n.rules.phrases as P
+    P._FACTS = _FACTS
+    out = []
+    for key, text, th in items:
+        r = occurrences(lang, text, th)
+        if r[0] != 'ok':
+            out.append((key, r, None))
+            continue
+        vals = []
+        for (s_, e_, tx, val, is_ord) in r[1]:
+            words = [w for w in r[2][s_:e_] if w[:1].isalnum()]
+            vals.append(validate(lang, [w.lower() for w in words]))
+        out.append((key, r, vals))
+    return lang, out
+
+
+def rule_spans_validate(ctx, rep, langs=ALL_LANGS):
+    R = 'S07-SPANS-VALIDATE'
+    rep.rule(R, 'in each real language, for generated sentences (numbers, pairs with and without conjunction, zeros, ordinals): the words of every '
+                'non-decimal occurrence find_numbers reports (threshold 0), validated on their own by text2digits\' path, give the same digit text — '
+                'no rejected word inside a span, no dangling conjunction, no digits its own words do not produce')
+    global _FACTS, _EV
+    jobs = {}
+    for lang in langs:
+        lx = lexicon(lang)
+        w1, w2 = WORDS[lang]
+        cj = lx.get('conjunction')
+        sp = lambda n: ' '.join(spellings(lang, n)[0])   # noqa: E731
+        texts = []
+        for n in (1, 12, 21, 70, 99, 100, 101, 121, 1000, 2005, 21000, 100000, 999999, 3 * 10 ** 6 + 5):
+            texts.append('%s %s %s' % (w1, sp(n), w2))
+            if cj:
+                texts.append('%s %s %s %s' % (sp(n), cj, w1, w2))           # dangling conjunction after a number
+                texts.append('%s %s %s' % (sp(n), cj, sp(7)))
+        for a in (1, 10, 20, 21, 70, 99):
+            for b in (1, 6, 10, 12, 20, 99):
+                texts.append('%s %s %s %s' % (w1, sp(a), sp(b), w2))
+        texts.append('%s %s %s %s' % (lx['zero'][0], lx['zero'][0], sp(7), sp(100)))
+        for n in (1, 3, 21):
+            o = ordinal_spellings(lang, n)
+            if o:
+                texts.append('%s %s %s' % (' '.join(o[0]), sp(2), w2))
+        jobs[lang] = [((i,), t, 0.0) for i, t in enumerate(texts)]
+
+    def mk():
+        global _FACTS, _EV
+        _FACTS = ctx.facts
+        _EV = {}
+        import multiprocessing
+        n = min(os.cpu_count() or 1, 16)
+        js = []
+        for lang, items in jobs.items():
+            half = len(items) // 2
+            js += [(lang, items[:half]), (lang, items[half:])]
+        if n < 2 or os.environ.get('T2N_NO_FORK'):
+            parts = [_span_work(j) for j in js]
+        else:
+            with multiprocessing.get_context('fork').Pool(min(n, len(js))) as pool:
+                parts = pool.map(_span_work, js, chunksize=1)
+        out = {}
+        for lang, o in parts:
+            out.setdefault(lang, {}).update({k: (r, v) for k, r, v in o})
+        return out
+    res = getattr(ctx, 'memo_disk', ctx.memo)(('sent-spans', ctx.tier), mk)
+    total = 0
+    for lang in langs:
+        mark = lexicon(lang)['decimal_mark']
+        bad, okc, unk = [], 0, None
+        for key, text, th in jobs[lang]:
+            r, vals = res[lang][key]
+            if r[0] == '?':
+                unk = (text, r[1])
+                break
+            if r[0] != 'ok':
+                continue
+            for (s_, e_, tx, val, is_ord), v in zip(r[1], vals):
+                if mark in tx and not is_ord:
+                    continue
+                total += 1
+                if v[0] == '?':
+                    unk = (text, v[1])
+                    break
+                want = ('Ok', tx)
+                got = (v[0], (v[1] + (v[2] or '')) if v[0] == 'Ok' else v[1])
+                if got != want:
+                    bad.append((text, 'the span %r over tokens %d..%d validates on its own to %s' % (tx, s_, e_, got)))
+                else:
+                    okc += 1
+        if unk:
+            rep.anchor(R, lang, 'cannot interpret %r: %s' % unk)
+            continue
+        rep.check(not bad, R, lang, '%d spans validate to their own text' % okc, 'in %r %s (%d spans)' % (bad[0] + (len(bad),) if bad else ('', '', 0)))
+    rep.floor(R, total, 500, 'spans validated')
